@@ -195,6 +195,17 @@ def main():
             vals = {"s": [float(i) - 1 for i in range(n)]}
             for s in ["ip1|ip5", "ip5|ip1", "ip1|e", "(ip1|ip5)", "ip|e", "ip1", "ip1.*", "ip1|ip5::0", "ip1|ip5::-1", "ip1|e>>0", "e|ip1|ip10", "ip1|", "|ip1", "ip1$|e"]:
                 check(rac, col, vals, s, "Table._get_regexp_indices")
+    rac.section("pattern-syntax", "regular expressions whose text contains the characters the selector syntax also uses -- a single ':' (row names like "
+                "'bpm:1'), '<' and '>' inside group syntax ((?:..), (?P<k>..), look-behind) -- with and without '::count' / '>>k': only a DOUBLE colon "
+                "and a double angle bracket belong to the selector", "length 1..3 over 4 names x 11 selectors")
+    SN = ("bpm:1", "bpm", "ip1", "ip2")
+    for n in range(1, 4):
+        for col in itertools.product(SN, repeat=n):
+            if rac.out_of_time(0.7):
+                break
+            vals = {"s": [float(i) - 1 for i in range(n)]}
+            for s in ["bpm:1", "bpm:1::0", "bpm:.", "(?:ip1|ip2)", "(?:ip1|ip2)::0", "(?P<k>ip)\\d", "(?P<k>ip)\\d::-1", "i(?<=i)p1", "(?:ip1|ip2)>>0", "ip[^:]", "bpm(:1)?"]:
+                check(rac, col, vals, s, "Table._get_regexp_indices")
     rac.section("composition", "rows[s1, s2] == rows[s1].rows[s2] (and indices / mask of the tuple describe the same rows) for "
                 "pairs of selectors", "columns of length 3..4, about 40 x 40 selector pairs", exhaustive=False)
     import numpy as np
